@@ -141,9 +141,11 @@ func (a *cacheAnchors) cases() []entryCase {
 
 // ruleLookup checks the lookup function's transitions for every abstract
 // pre-state satisfying the data invariant
-//   I: status in {unknown, fetching} => expiredAt == 0
-//   I': status in {hitForPass, hit}  => expiredAt != 0
-//   J: status != fetching            => waiter list empty
+//
+//	I: status in {unknown, fetching} => expiredAt == 0
+//	I': status in {hitForPass, hit}  => expiredAt != 0
+//	J: status != fetching            => waiter list empty
+//
 // and shows the invariant is re-established on every exit.
 func ruleLookup(c *Ctx, a *cacheAnchors, want map[string]bool) {
 	get := a.get
@@ -957,7 +959,6 @@ func ruleCompletionPaths(c *Ctx, a *cacheAnchors, want map[string]bool) {
 	}
 }
 
-
 // argAlwaysPositive: at every static call site of F in pike, argument idx has a
 // lower bound >= 1 on every path reaching the call.
 func argAlwaysPositive(p *Program, F *ssa.Function, idx int) (msgs []string, sites int) {
@@ -992,7 +993,6 @@ func argAlwaysPositive(p *Program, F *ssa.Function, idx int) (msgs []string, sit
 	}
 	return
 }
-
 
 // appendedContains: L = append(old, elems...) and v is one of the appended
 // elements (go/ssa lowers the variadic part to a fresh array whose cells are
